@@ -3,6 +3,7 @@ package checks
 import (
 	"bufio"
 	"encoding/json"
+	"errors"
 	"fmt"
 	"os"
 	"path/filepath"
@@ -35,7 +36,7 @@ func refBatch() *spec.BatchSpec {
 		}
 		return spec.DocSpec{ID: spec.B(id), Fields: []spec.FieldSpec{f}}
 	}
-	syn := spec.DocSpec{ID: "s1", IDLast: true, Fields: []spec.FieldSpec{{Name: "syn", Kind: spec.KindSyn, Syn: []spec.SynDef{{Term: "big", Syns: []spec.B{"large", "huge"}}, {Term: "tiny", Syns: []spec.B{"small"}}}}}}
+	syn := spec.DocSpec{ID: "s1", IDLast: true, Fields: []spec.FieldSpec{{Name: "syn", Kind: spec.KindSyn, Syn: []spec.SynDef{{Term: "big", Syns: []spec.B{"large", "huge"}}, {Term: "tiny", Syns: []spec.B{"small"}}, {Term: "wee", Syns: []spec.B{"small", "little"}}, {Term: "zippy", Syns: []spec.B{"quick"}}}}}}
 	syn2 := spec.DocSpec{ID: "s2", IDLast: true, Fields: []spec.FieldSpec{{Name: "coll2", Kind: spec.KindSyn, Syn: []spec.SynDef{{Term: "fast", Syns: []spec.B{"quick"}}}}}}
 	b := &spec.BatchSpec{Docs: []spec.DocSpec{mk("r1", "v1", "a", "b"), mk("r2", "v2", "b", "c"), mk("r3", "", "a"), syn, syn2}}
 	if vectorsBuild {
@@ -154,7 +155,8 @@ func fullRead(seg segment.Segment, want *spec.Obs) string {
 type refCase struct {
 	// A = AddRef, D = DecRef, C = Close; and, leaving the count unchanged, uses of the segment
 	// as the input of a public Merge: m = a merge that succeeds, M = a merge whose close channel
-	// is closed before the call, F = a merge whose destination cannot be created
+	// is closed before the call, F = a merge whose destination cannot be created, K = merges
+	// cancelled at every one of their progress reports
 	Ops string `json:"ops"`
 }
 
@@ -177,6 +179,12 @@ func runRefSequence(c refCase, full bool) *Violation {
 	if err != nil {
 		return violation(prop, "setup/open", "%v", err)
 	}
+	// a second, in-memory copy serves as the other input of the cancelled merges of 'K'
+	o2, _, err := drive.Build(b, 0)
+	if err != nil {
+		return violation(prop, "setup/build", "%v", err)
+	}
+	defer o2.Close()
 	if m, f := mappingCount(path), fdCount(path); m != 1 || f != 1 {
 		return violation(prop, "refs/open-state", "after Open the file is mapped %d times and has %d descriptors (want 1 and 1)", m, f)
 	}
@@ -201,6 +209,28 @@ func runRefSequence(c refCase, full bool) *Violation {
 			case 'C':
 				rerr = o.Close()
 				count--
+			case 'K':
+				// merges of the held segment cancelled at every point of their progress (the close
+				// channel is closed inside the k-th progress report, for every k): the held segment
+				// must stay fully readable - including its thesauri - after each of them
+				counter := &closingReporter{ch: make(chan struct{})}
+				dir := drive.NewDir("c20k")
+				defer os.RemoveAll(dir)
+				if _, _, merr := drive.Plugin.Merge([]segment.Segment{o, o2}, []*roaring.Bitmap{nil, nil}, filepath.Join(dir, "m.zap"), counter.ch, counter); merr != nil {
+					return fmt.Errorf("uncancelled merge: %v", merr)
+				}
+				for k := 1; k <= counter.calls; k++ {
+					r := &closingReporter{k: k, ch: make(chan struct{})}
+					dest := filepath.Join(dir, fmt.Sprintf("k%d.zap", k))
+					_, _, merr := drive.Plugin.Merge([]segment.Segment{o, o2}, []*roaring.Bitmap{nil, nil}, dest, r.ch, r)
+					os.Remove(dest)
+					if merr != nil && !errors.Is(merr, segment.ErrClosed) {
+						return fmt.Errorf("merge cancelled at report %d of %d returned %v", k, counter.calls, merr)
+					}
+					if m := lightRead(o, want); m != "" {
+						return fmt.Errorf("after a merge cancelled at report %d of %d the held segment no longer reads correctly: %s", k, counter.calls, m)
+					}
+				}
 			case 'm', 'M', 'F':
 				// a merge borrows its inputs: whatever its outcome, the holder's references
 				// are neither consumed nor multiplied
@@ -290,7 +320,7 @@ func TestC20Enum(t *testing.T) {
 		}
 	})
 	// the held segment also serves as the input of merges that succeed, are cancelled or fail
-	for _, s := range []string{"MC", "FC", "mC", "MD", "AMDFC", "MAFCmD", "AAMDFDmC"} {
+	for _, s := range []string{"MC", "FC", "mC", "MD", "AMDFC", "MAFCmD", "AAMDFDmC", "KC", "AKDmC"} {
 		if fail != nil {
 			break
 		}
@@ -523,6 +553,64 @@ func TestC20InMemory(t *testing.T) {
 			fmt.Printf("VIOLATION-DETAIL property=%s stage=in-memory signature=%s replay=%s\n%s\n", prop, v.Signature, path, v.Message)
 			t.FailNow()
 		}
+	}
+	// a large in-memory segment is closed (once: a second Close of an in-memory segment is outside
+	// the input domain - with vector support compiled in it panics on the unchanged tree) and then
+	// smaller segments are built: closing must not hand the closed segment's memory to anything
+	// that is still alive - every later segment keeps reading as its own batch dictates
+	col.CaseHash(uint64(1000), true, []string{"in-memory-close-then-build"}, func() any {
+		return "build 3000 docs; AddRef; DecRef; Close; build small A; build small B; read A, B, A"
+	})
+	v := func() *Violation {
+		var segs []segment.Segment
+		defer func() {
+			for _, s := range segs {
+				s.Close()
+			}
+		}()
+		big, _, err := drive.Build(&spec.BatchSpec{Wide: &spec.WideSpec{N: 3000, Period: 3, Stored: true}}, 0)
+		if err != nil {
+			return violation(prop, "inmem/build", "%v", err)
+		}
+		if perr := drive.Safe(func() error {
+			big.AddRef()
+			if err := big.DecRef(); err != nil {
+				return err
+			}
+			return big.Close()
+		}); perr != nil {
+			return violation(prop, "inmem/close", "closing an in-memory segment: %v", perr)
+		}
+		ba := refBatch()
+		bb := &spec.BatchSpec{Docs: []spec.DocSpec{{ID: "other", Fields: []spec.FieldSpec{{Name: "g", Type: 't', Stored: true, DV: true, Value: []byte("zzz"), Len: 2,
+			Tokens: []spec.TokenSpec{{Term: "q", Freq: 2, Locs: []spec.LocSpec{{Pos: 1, Start: 0, End: 1}, {Pos: 2, Start: 2, End: 3}}}}}}}}}
+		wa, wb := spec.Expect(ba), spec.Expect(bb)
+		sa, _, err := drive.Build(ba, 0)
+		if err != nil {
+			return violation(prop, "inmem/build", "%v", err)
+		}
+		segs = append(segs, sa)
+		if m := fullRead(sa, wa); m != "" {
+			return violation(prop, "inmem/read-after-close-of-another", "first segment built after the close: %s", m)
+		}
+		sb, _, err := drive.Build(bb, 0)
+		if err != nil {
+			return violation(prop, "inmem/build", "%v", err)
+		}
+		segs = append(segs, sb)
+		if m := fullRead(sb, wb); m != "" {
+			return violation(prop, "inmem/read-after-close-of-another", "second segment built after the close: %s", m)
+		}
+		if m := fullRead(sa, wa); m != "" {
+			return violation(prop, "inmem/read-after-close-of-another", "first segment built after the close, read again after the second build: %s", m)
+		}
+		return nil
+	}()
+	if v != nil {
+		col.Freeze()
+		path := writeReplay(prop, "in-memory", map[string]int{"iteration": 1000}, v)
+		fmt.Printf("VIOLATION-DETAIL property=%s stage=in-memory signature=%s replay=%s\n%s\n", prop, v.Signature, path, v.Message)
+		t.FailNow()
 	}
 }
 
